@@ -17,7 +17,7 @@ from hypothesis import strategies as st
 
 from vlib.core import PropertyViolation, with_budget, StepBudgetExceeded, raised_in_repo
 from vlib.classes import (build_dag, add_class, has_diamond, EV_ADD, EV_REMOVE, EV_RENAMED, EV_PROBE, EV_FALSY, EV_EQ,
-                          EV_UNHASH)
+                          EV_UNHASH, EV_INSTANCE)
 
 EXPLICIT_IDS = [1, 2, 3, 4, 6, 'a', ('t', 1), -1, 0, True, 2.0, '', 9]
 NEVER_USED = ['never-used', 10 ** 9]
@@ -46,7 +46,9 @@ EV_SHAPES = [0, 0, EV_ADD | EV_REMOVE, EV_ADD, EV_REMOVE, EV_ADD | EV_REMOVE | E
              EV_ADD | EV_REMOVE | EV_PROBE, EV_ADD | EV_RENAMED, EV_REMOVE | EV_PROBE,
              EV_FALSY, EV_FALSY | EV_ADD | EV_REMOVE | EV_PROBE,
              # value semantics: instances that are equal but distinct (hashable / unhashable)
-             EV_EQ, EV_EQ | EV_ADD | EV_REMOVE | EV_PROBE, EV_UNHASH | EV_ADD | EV_REMOVE]
+             EV_EQ, EV_EQ | EV_ADD | EV_REMOVE | EV_PROBE, EV_UNHASH | EV_ADD | EV_REMOVE,
+             # the mapping lives on the instances, the class declares nothing
+             EV_INSTANCE | EV_ADD | EV_REMOVE, EV_INSTANCE | EV_REMOVE | EV_PROBE]
 
 
 def decode_class(p):
@@ -335,7 +337,7 @@ class Run:
         return self.is_marked(e) and not self.owns(e)
 
     def maps(self, comp, event):
-        return event in getattr(type(comp), '__events__', {})
+        return event in getattr(comp, '__events__', {})
 
     def line_budget(self):
         """lines one guarded call (process, enabling assignment) may execute inside desper: the fixed budget for
@@ -500,7 +502,7 @@ class Run:
         group = []
         if old is not None:
             self.flags['replace'] += 1
-            if hasattr(type(old), '__events__'):
+            if hasattr(old, '__events__'):
                 self.flags['handler_detached_by_replace'] += 1
             self.detached.append(old)
             if self.maps(old, 'on_remove'):
@@ -623,7 +625,7 @@ class Run:
             self.busy.pop()
         row = self.attached.pop(e)
         self.flags['delete_now'] += 1
-        if any(hasattr(type(c), '__events__') for c in row.values()):
+        if any(hasattr(c, '__events__') for c in row.values()):
             self.flags['handler_detached_by_delete_now'] += 1
         if self.is_pending(e):
             self.flags['pending_row_vanished_by_delete_now'] += 1
@@ -1011,7 +1013,7 @@ class Run:
         for e, row in self.attached.items():
             group.extend(('on_remove', c, e) for c in row.values() if self.maps(c, 'on_remove'))
             self.detached.extend(row.values())
-            if any(hasattr(type(c), '__events__') for c in row.values()):
+            if any(hasattr(c, '__events__') for c in row.values()):
                 self.flags['handler_detached_by_clear'] += 1
         self.attached = {}
         self.pending = []
@@ -1138,7 +1140,7 @@ class Run:
     def check_handlers(self):
         att = {id(c) for row in self.attached.values() for c in row.values()}
         for c in self.comps:
-            if not hasattr(type(c), '__events__'):
+            if not hasattr(c, '__events__'):
                 continue
             try:
                 h = self.world.is_handler(c)
